@@ -74,6 +74,7 @@ pub fn run(name: &str, raw: &[u8]) -> Option<u32> {
         "storage_u8" => storage::storage_u8(&arr(raw)),
         "storage_odd" => storage::storage_odd(&arr(raw)),
         "storage_keyed" => storage::storage_keyed(&arr(raw)),
+        "storage_cross" => storage::storage_cross(&arr(raw)),
         _ => {
             #[cfg(any(kani, rspirv_verif))]
             {
